@@ -233,7 +233,13 @@ func TestVerifC03(t *testing.T) {
 		if r.Chance(1, 2) {
 			extra, withParams, tags = c03Policies(r, c)
 		}
+		withTLS := r.Chance(1, 3)
+		if withTLS {
+			tr := r.Fork()
+			vpObjectsHook = func(objs []client.Object) []client.Object { return c03TLSLayer(tr, objs) }
+		}
 		w := vpRunStateWith(c, plus, extra, withParams)
+		vpObjectsHook = nil
 		files := w.Files()
 		if files == nil {
 			files = map[string]string{}
